@@ -22,6 +22,9 @@ func GetBuf(size int) Buffer {
 }
 
 func ReleaseBuf(b Buffer) {
+	if vfOnRelease(b) {
+		return
+	}
 	bytespool.Release(b)
 }
 
